@@ -59,7 +59,7 @@ def shrink(t, xb, nd):
     return t.reshape(*xb, *t.shape[t.dim() - nd:]).clone()
 
 
-GENERIC = ("Dense", "OB", "SumBatch", "Cat")      # classes without an inv_quad_logdet override (base-class path)
+GENERIC = ("Dense", "OB", "SumBatch", "Cat", "Derived")     # classes without an inv_quad_logdet override (base-class path)
 
 
 # ----------------------------------------------------------------------------------------- spec tools
@@ -72,7 +72,7 @@ def spec_batch(s):
         return opbuild.shape_of(s["e"])[:-2]
     if k == "SumBatch":
         return list(s["A"].shape[:-3])
-    if k == "Cat":
+    if k in ("Cat", "Derived"):
         return list(dense(s).shape[:-2])
     if k == "Diag":
         return list(s["d"].shape[:-1])
@@ -108,6 +108,8 @@ def spec_size(s):
         return s["A"].shape[-1]
     if k == "Cat":
         return s["parts"][0].shape[-1]
+    if k == "Derived":
+        return s["A"].shape[-1] + (s["B"].shape[-2] if s["how"] == "cat_rows" else 0)
     if k == "Diag":
         return s["d"].shape[-1]
     if k in ("CDiag", "Ident"):
@@ -147,6 +149,8 @@ def describe(s):
         return "KPAD[%s%s]" % (dk["k"], ("-const" if dk.get("consts") else "") if dk["k"] == "kron" else "")
     if k in ("Tri", "Chol"):
         return k + ("[upper]" if s["upper"] else "[lower]")
+    if k == "Derived":
+        return "Derived[%s%s]" % (s["how"], "+warm" if s.get("warm") else "")
     return k
 
 
@@ -199,6 +203,27 @@ def build(s, grad=True):
         return O.SumBatchLinearOperator(O.DenseLinearOperator(g(A.movedim(-3, bd).contiguous())), block_dim=bd)
     if k == "Cat":
         return O.CatLinearOperator(*[O.DenseLinearOperator(g(p)) for p in s["parts"]], dim=s["dim"])
+    if k == "Derived":
+        # an operator that ARRIVES with pre-filled caches: derived from a dense operator (whose root_decomposition was
+        # computed before when "warm") by a method that transplants / updates the cached roots
+        import warnings
+        base = O.DenseLinearOperator(g(s["A"]))
+        with warnings.catch_warnings():
+            warnings.simplefilter("ignore")
+            if s.get("warm"):
+                base.root_decomposition()
+            how = s["how"]
+            if how == "cat_rows":
+                return base.cat_rows(g(s["B"]), g(s["D"]))
+            if how == "add_low_rank":
+                return base.add_low_rank(g(s["V"]))
+            if how == "add_jitter":
+                return base.add_jitter(s["j"])
+            if how == "add_diagonal":
+                return base.add_diagonal(g(s["d"]))
+            if how == "none":
+                return base
+        raise ValueError(how)
     if k == "Diag":
         return xp(O.DiagLinearOperator(g(sh(s["d"], 1))))
     if k == "CDiag":
@@ -266,6 +291,17 @@ def dense(s):
         return s["A"].sum(-3)
     if k == "Cat":
         return torch.cat([p.clone() for p in s["parts"]], dim=s["dim"])
+    if k == "Derived":
+        A, how = s["A"], s["how"]
+        if how == "cat_rows":        # [[A, B^T], [B, D]]  (cross_mat B is K x N)
+            return torch.cat([torch.cat([A, s["B"].mT], -1), torch.cat([s["B"], s["D"]], -1)], -2)
+        if how == "add_low_rank":
+            return A + s["V"] @ s["V"].mT
+        if how == "add_jitter":
+            return A + s["j"] * torch.eye(A.shape[-1], dtype=F64)
+        if how == "add_diagonal":
+            return A + torch.diag_embed(s["d"])
+        return A.clone()
     if k == "Diag":
         return torch.diag_embed(s["d"])
     if k == "CDiag":
@@ -351,8 +387,9 @@ def expand_to(t, batch, nd):
     return t.expand(*batch, *t.shape[t.dim() - nd:])
 
 
-def leaf_lit(s, pc=None):
-    """BLeaf literal: (batch shape, members).  pc: per-member (k, L, d) for AddedDiag operators."""
+def leaf_lit(s, pc=None, croot=None):
+    """BLeaf literal: (batch shape, members).  pc: per-member (k, L, d) for AddedDiag operators; croot: the lower
+    triangular root found in the operator's root_decomposition cache before the call (tensor (*batch, n, n))."""
     k = s["k"]
     bs = spec_batch(s)
     B = int(math.prod(bs))
@@ -362,6 +399,10 @@ def leaf_lit(s, pc=None):
         Ms = members(A, 2)
         ms = []
         for b in range(B):
+            if croot is not None:
+                Lb = members(expand_to(croot, bs, 2), 2)[b]
+                ms.append("Cached %s %s %s" % (nat(n), mat_lit(Ms[b]), mat_lit(Lb)))
+                continue
             if pc is not None:
                 kk, L, d = pc
                 Lb = members(expand_to(L, bs, 2), 2)[b]
@@ -407,13 +448,13 @@ def leaf_lit(s, pc=None):
     return "(BLeaf %s %s)" % (natlist(bs), lst(["(%s)" % m for m in ms]))
 
 
-def bop_lit(s, pc=None):
+def bop_lit(s, pc=None, croot=None):
     k = s["k"]
     if k == "Block":
         return "(BBlock %s %s)" % ("true" if s["il"] else "false", bop_lit(s["base"], pc))
     if k == "Repeat":
         return "(BRepeat %s %s)" % (bop_lit(s["base"], pc), natlist(s["rep"]))
-    return leaf_lit(s, pc)
+    return leaf_lit(s, pc, croot)
 
 
 def rhs_lit(R, is_vec, batch):
